@@ -268,7 +268,12 @@ def check_drop(ctx):
             bad.append((p, 'leaves the wait loop while worker threads are still counted')); continue
         clears = [e.args.get('callee', '') for e in p.events if e.kind == 'CALL']
         if not any(c.endswith('FlushManager::clear') for c in clears) or not any(c.endswith('JournalManager::clear') for c in clears):
-            bad.append((p, 'cyclic holders are not cleared'))
+            bad.append((p, 'cyclic holders are not cleared')); continue
+        early = [e for e in p.events if e.kind == 'CALL' and e.args.get('callee', '').endswith(('FlushManager::clear', 'JournalManager::clear')) and e.idx < loads[-1].idx]
+        late = [e for e in p.events if e.kind == 'CALL' and e.args.get('callee', '').endswith('FlushManager::clear') and e.idx > loads[-1].idx]
+        if early and not late:
+            bad.append((p, f'{early[0].args["callee"].split("::")[-2]} is emptied before the worker threads have stopped and not again afterwards: a worker that is still running can enqueue a task that keeps a '
+                           'Keyspace (and with it the directory lock) alive for the rest of the process'))
     ex2, paths2 = ctx.run(r'^journal::<impl>::drop$', cache_key='jdrop', loop_bound=2)
     for p in paths2:
         if p.status != 'returned':
@@ -291,13 +296,13 @@ def dir_fingerprint_cmds(path):
 
 
 def native_marker(ctx, contents):
-    """a directory whose version marker holds `content` must be refused and left untouched"""
+    """a directory whose version marker holds `content` must be refused and left untouched (with and without a lock file lying around)"""
     last = (False, None, 'not run')
-    for content in contents:
+    for content, rmlock in [(c, r) for c in contents for r in (False, True)]:
         hexc = content.hex() if content else '-'
-        L = ['dir $DIR/db', 'open workers=0', 'ks a', 'insert a 6b31 31', 'close', f'writefile $DIR/db/version {hexc}', 'fingerprint $DIR/db',
+        L = ['dir $DIR/db', 'open workers=0', 'ks a', 'insert a 6b31 31', 'close', f'writefile $DIR/db/version {hexc}'] + (['rmfile $DIR/db/lock'] if rmlock else []) + ['fingerprint $DIR/db',
              'open workers=0', 'fingerprint $DIR/db', 'close']
-        spath, out = ctx.run_scenario('\n'.join(L) + '\n', tag='marker-' + (hexc[:16]))
+        spath, out = ctx.run_scenario('\n'.join(L) + '\n', tag='marker-' + (hexc[:16]) + ('-nolock' if rmlock else ''))
         rs = [(c, r) for _i, c, r in out]
         if any(c == 'CRASH' for c, _r in rs):
             return True, spath, f'opening a directory with marker {content!r} crashed'
